@@ -1,6 +1,6 @@
 (* Dispatch.v — name -> model runner / spec checker, for the extracted driver *)
 From Coq Require Import String List Ascii ZArith Bool.
-From QH Require Import Bytes Value Range Spec_C16 HeaderMap Parser SocketM SockIO Spec_C01 SockSpec Router SrvIO.
+From QH Require Import Bytes Value Range Spec_C16 HeaderMap Parser SocketM SockIO Spec_C01 SockSpec Router SrvIO RouterSpec.
 Import ListNotations.
 
 Definition run (fam : bytes) (c : value) : value :=
@@ -21,6 +21,7 @@ Definition chk (prop fam : bytes) (c o : value) : bool :=
   else if beq prop (B "C02") then (if beq fam (B "sock") then chk_C02 c o else true)
   else if beq prop (B "C03") then (if beq fam (B "sock") then chk_C03 c o else true)
   else if beq prop (B "C04") then (if beq fam (B "sock") || beq fam (B "srv") then chk_C04 c o else true)
+  else if beq prop (B "C05") || beq prop (B "C06") then (if beq fam (B "srv") then chk_route c o else true)
   else if beq prop (B "C18") then (if beq fam (B "sock") then chk_C18 c o else true)
   else if beq prop (B "C19") then (if beq fam (B "sock") || beq fam (B "srv") then chk_C19_sock c o else true)
   else true.
